@@ -85,6 +85,18 @@ check("C12",
       "come from Session.tla; MC_Engine checks InvInputsOnce/InvCausal on all interleavings.",
       ENG, "TLA+ engine model + trace validation with causality clauses (TLC)", "DESIGN.md §4 C12")
 
+check("C17",
+      "Projector.tla models the object graph of ComplementProjector (cached transpose/adjoint/conjugate companions as the "
+      "code builds them) with the Klein four-group acting on P = 1 - R L^dagger; TLC checks for all words of length <=5 "
+      "over {T,H,C}, Hermitian and biorthogonal starts, that links are involutive and every object denotes the right "
+      "matrix over GF(p^2). All 81 words of length 4 (every prefix observed) are replayed on real objects for five "
+      "instance kinds (orthonormal real/complex, biorthogonal real/complex via unimodular matrices, general L,R); "
+      "Trace_Projector.tla (TLC) takes Projector!Apply per operation and compares 11 logged applications per step "
+      "(left/right on vectors and matrices, rmatvec, inside P A P incl. its adjoint and right-multiplication, shape, "
+      "dtype, idempotence when L^dagger R = 1) with the dense matrix of the model's object.",
+      "Trusted: TLC/SANY 1.8.0, Json module, exact float arithmetic on dyadic / Gaussian-integer R, L, reduction mod p. "
+      "d<=5, r<=3, words of length 4 (thorough: 4 repetitions with fresh instances).",
+      "TLA+ object-graph model (TLC exhaustive) + trace validation against dense matrices in GF(p^2)", "DESIGN.md §4 C17")
 check("C18",
       "CauchyDef.tla states the definition (sum over intermediate blocks and all splittings of the multi-order, zero = "
       "absent term, one = identity) for a chain of 2-4 factors; Cauchy.tla models the loop of product_by_order one "
